@@ -1,3 +1,15 @@
-import GenlmModel.Model.Basic
+import Batteries.Tactic.Alias
+import GenlmModel.Proofs.Linear
+/-! # C15 — algebraic path solver -/
 namespace Genlm.Props.C15
+alias solve_left_equation := Genlm.solveLeft_eq
+alias solve_right_equation := Genlm.solveRight_eq
+alias closure_row_equation := Genlm.closure_scc_row
+alias lehmann_closed := Genlm.lehmann_closed
+alias lehmann_field := Genlm.lehmann_field
+/-- the checker accepts exactly the SCC decompositions listed in an edge-compatible order -/
+alias scc_checker_exact := Genlm.sccCheck_iff
+alias scc_checker_sound := Genlm.sccCheck_sound
+alias closure_scc_correct := Genlm.closureScc_correct
+alias closure_reference_closed := Genlm.closureRef_closed
 end Genlm.Props.C15
